@@ -84,6 +84,13 @@ def step (st : MqttRecv.RState) (toks : List String) : MqttRecv.RState × List S
       | some (ch, on) => (st, [s!"SETON 1 {ch} {on}"])
       | none => (st, ["SETON 0 0 0"])
     | _, _, _ => (st, ["BADOP"])
+  | ["topicrs", dv, t, m] =>
+    match Bytes.ofHex dv, Bytes.ofHex t, Bytes.ofHex m with
+    | some d, some tp, some ms =>
+      match parserRs d tp ms with
+      | some (ch, a, pc, tl) => (st, [s!"RSACT 1 {ch} {a} {pc} {tl}"])
+      | none => (st, ["RSACT 0 0 0 0 0"])
+    | _, _, _ => (st, ["BADOP"])
   | ["val", u, v, p] =>
     match v.toNat?, p.toNat? with
     | some n, some pr => (st, [s!"VAL {prepareVal (u == "1") (n % 2 ^ 64) pr}"])
